@@ -1,7 +1,7 @@
 PROP = {'id': 'C18', 'level': 'proof',
  'functions': ['SlurmManager._create_submission_script_text', 'HpcSubmitterT._create_run_script', 'SlurmManager._get_statuses_from_output',
                'SlurmManager.check_statuses', 'SlurmManager.submit', 'SlurmManager.cancel_job', 'run_command', '_should_exit_early',
-               'HpcStatusCollector.check_status', 'AsyncHpcSubmitter.is_complete', 'AsyncHpcSubmitter.run'],
+               'HpcStatusCollector.check_status', 'AsyncHpcSubmitter.is_complete', 'AsyncHpcSubmitter.run', 'HpcManagerV._get_interface', 'HpcManagerV.submit'],
  'native': ['SlurmManager._create_submission_script_text', 'SlurmManager._get_statuses_from_output', 'run_command'],
  'records': ['SlurmManager', 'SlurmConfigText', 'HpcStatusCollector', 'AsyncHpcSubmitter'],
  'min_obligations': 4000,
